@@ -4,6 +4,7 @@
 package model
 
 import (
+	"sort"
 	rt "github.com/Azbesciak/RealDecisionMaker/lib/zz_verifrt"
 )
 
@@ -203,4 +204,36 @@ func HC04_permutation() {
 		}
 		rt.Assert("C04.perm.present", found)
 	}
+}
+
+//verif:bounds C04 HC04_grid_fp: bit-precise (IEEE-754) run of sort.Sort(Less) + positionInRanking on A in 2..3 utilities in [-40,40] that are pairwise equal or at least one grid step (1e-8 minus the rounding slack 7.2e-15 of two reported values below 40) apart - a superset of the values the API reports after its 1e-8 rounding, so that a tolerance-based comparison that merges neighbouring grid values shows while exact comparison holds for every double; three id orders; the relational specification of the statement is asserted on the result
+//verif:assume C04 HC04_grid_fp: reported values below 40 in magnitude (k/1e8 with |k| <= 4e9); the rounding step itself is in HC04_ranking_spec (REAL)
+//verif:harness HC04_grid_fp mode=FP reach=neighbours,tie ob_timeout_ms=120000 feas_timeout_ms=60000
+func HC04_grid_fp() {
+	A := rt.IntRange("A", 2, 3)
+	ord := rt.IntRange("idorder", 0, 2)
+	rs := make(AlternativeResults, A)
+	const step = 1e-8 - 7.2e-15
+	var vs []float64
+	for i := 0; i < A; i++ {
+		v := rt.FloatIn("v"+c04ids[0][i], -40, 40)
+		for _, u := range vs {
+			d := v - u
+			rt.Assume(rt.Or(d == 0, rt.Or(d >= step, d <= -step)))
+		}
+		vs = append(vs, v)
+		alt := AlternativeWithCriteria{Id: c04ids[ord][i], Criteria: Weights{}}
+		rs[i] = *ValueAlternativeResult(&alt, v)
+	}
+	if rt.Branch(vs[0] == vs[1]) {
+		rt.Reach("tie")
+	} else {
+		rt.Reach("neighbours")
+	}
+	sort.Sort(&rs)
+	ranking := make(AlternativesRanking, A)
+	for i, r := range rs {
+		ranking[i] = *r.positionInRanking(&rs)
+	}
+	c04spec("C04.grid", &ranking, A)
 }
